@@ -107,6 +107,10 @@ class Array:
         return self._chunks
 
     @property
+    def chunksize(self):
+        return tuple(max(c) for c in self.chunks)
+
+    @property
     def numblocks(self):
         return tuple(len(c) for c in self.chunks)
 
@@ -555,6 +559,8 @@ def _force(x):
 def delayed(f=None, **dkw):
     if f is None:
         return lambda g: delayed(g, **dkw)
+    if getattr(f, '__sx_delayed__', False):
+        return f            # delayed(already delayed function) is the same object in dask
     if isinstance(f, Delayed):
         def call(*a, **k):
             return Delayed(lambda: f.compute()(*_force(a), **_force(k)))
@@ -566,6 +572,7 @@ def delayed(f=None, **dkw):
         return Delayed(lambda: f(*_force(a), **_force(k)))
     call.__name__ = getattr(f, '__name__', 'delayed')
     call.__wrapped__ = f
+    call.__sx_delayed__ = True
     return call
 
 
